@@ -279,11 +279,12 @@ theorem processTransactions_nonarb {s : State} {txns r : List Txn} (harb : s.cfg
       txns.Pairwise (fun a b => sharesInput a b = false) ∧
       (outIds txns).Nodup ∧ (∀ x ∈ outIds txns, contains s.unspent x = false) := by
   unfold processTransactions at h
-  simp only [harb, bind, Except.bind, Bool.false_eq_true, if_false] at h
+  simp only [harb, Bool.false_eq_true, if_false] at h
   split at h
   · cases h
-  · split at h
-    · cases h
+  · unfold ptCore at h
+    split at h
+    · simp at h
     · rename_i hne
       split at h
       · cases h
